@@ -1,6 +1,7 @@
 (* Pinned statements of C07 (generated once by tools/mkpins.py from coq/props/C07.v, then committed). *)
 From DV Require Import Model.Base Model.Parser Model.Header Model.Readers Model.Uncompress Model.Compress
-  Model.Renamer Spec.NameSpec Proofs.Hoare Proofs.CompressFrame Proofs.RenameSpec props.C07.
+  Model.Renamer Spec.NameSpec Spec.PacketSpec Spec.RecordSpec Spec.PlainSpec Proofs.Hoare Proofs.CompressFrame Proofs.RenameSpec Proofs.PlainWf
+  Proofs.CompressContent Proofs.RenameContent props.C07.
 Check (C07_replace_raw_shape : forall name target source sfx r,
   replace_raw name target source sfx = Ok (Some r) ->
   length source <= length name /\
@@ -24,3 +25,13 @@ Check (C07_identity : forall nl sl, Forall lab nl -> Forall lab sl -> sl <> [] -
   length (wire_of_labels sl) <= 255 ->
   replace_raw (wire_of_labels nl) (wire_of_labels sl) (wire_of_labels sl) false = Ok (Some (wire_of_labels sl))).
 Print Assumptions C07_identity.
+Check (C07_packet : forall p v sl tl sfx, bytes_ok p -> parse p = Ok v ->
+  Forall lab sl -> Forall lab tl -> sl <> [] -> tl <> [] -> bytes_ok (wire_of_labels tl) ->
+  length (wire_of_labels sl) <= 255 -> length (wire_of_labels tl) <= 255 ->
+  exists qls qt lxa lxn lxr qe, reading p qls qt lxa lxn lxr /\ cname_l p 12 qls qe /\
+    (renamer_rename v (wire_of_labels tl) (wire_of_labels sl) sfx = Err InvalidName \/
+     exists out qls' L' X, renamer_rename v (wire_of_labels tl) (wire_of_labels sl) sfx = Ok out /\ bytes_ok out /\
+       renamed sl tl sfx qls qls' /\ Forall2 (ren_rec sl tl sfx) (lxa ++ lxn ++ lxr) L' /\
+       out = (firstn 12 p ++ wire_of_labels qls' ++ firstn 4 (skipn qe p)) ++ X /\
+       recs_enc p out (12 + length (wire_of_labels qls') + 4) L' (length out))).
+Print Assumptions C07_packet.
